@@ -312,7 +312,7 @@ func queryStoreHeight(r *Run, rule string) {
 	lbh := "(*baseapp.BaseApp).LastBlockHeight(param:app)"
 	if c := r.oneCall(rule, "handleQueryStore", f, "store/types.Queryable.Query"); c != nil {
 		a := argTerm(P.callTerm(c), 1).String()
-		r.Check(strings.Contains(a, "Height="+lbh), rule, "handleQueryStore/request-carries-injected-height", P.InstrPos(c), "request Height defaults to the latest height", "the request passed to the multistore is "+oneLine(a)+" ; required: its Height set to "+lbh+" when none was given (otherwise the substore answers from latest-1 while the response claims latest)")
+		r.Check(strings.Contains(a, "Height="+lbh) || strings.Contains(a, "Height=phi("+lbh+", param:req.Height)"), rule, "handleQueryStore/request-carries-injected-height", P.InstrPos(c), "request Height defaults to the latest height", "the request passed to the multistore is "+oneLine(a)+" ; required: its Height set to "+lbh+" when none was given (otherwise the substore answers from latest-1 while the response claims latest)")
 	}
 	ok := false
 	Instrs(f, func(in ssa.Instruction) {
